@@ -1834,7 +1834,7 @@ theorem findStruct_mkTCtx (F : GFile) (n : String) {fs : List (String × GTy)} (
     types -/
 theorem tlink_of_link {env : Env} {file : AFile} {G : List String} {P : Prog} {F : GFile} (hl : Link env file G P F)
     (hT : (goodStructs env).all (structTyTableOK env F) = true)
-    (hT2 : (collectRuntimeTypes file).tuples.all (tupleTyTableOK env F) = true)
+    (hT2 : (collectRuntimeTypes env file).tuples.all (tupleTyTableOK env F) = true)
     (hT3 : (goodEnums env).all (enumTyTableOK env F) = true) : TLink env file G (mkTCtx F) := by
   refine ⟨?fn, ?builtin, hl.ty.closed, ?structs, ?refs, ?arrs, ?tups, ?enums⟩
   case enums =>
